@@ -127,7 +127,7 @@ func (r *rig) teardown() {
 	r.mu.Unlock()
 	// The network goes first: a dial or a request hanging on a black-holed link holds the manager's mutexes, and Close would wait
 	// for them - with virtual time frozen meanwhile (the verdicts have been taken by now).
-	r.Net.Refuse = true
+	r.Net.SetRefuse(true)
 	r.Net.CutAll()
 	if !realClock {
 		synctest.Wait()
